@@ -60,6 +60,46 @@ def small_grammar(rng, n3):
     return out, d2, d3
 
 
+def quantifier_family():
+    """quantifiers whose body the simplifier could reduce to something that no longer mentions the variable: the value over an
+    empty domain (always true / always false) must survive"""
+    VI = ('var', 'i')
+    P = ('bin', '>', VI, int_lit(0))
+    Q = ('bin', '<', VI, X)
+    elim = [('bin', 'or', P, ('un', 'not', P)), ('bin', 'and', P, ('un', 'not', P)), ('bin', 'implies', P, P), ('bin', 'iff', P, P),
+            ('bin', 'and', FALSE, Q), ('bin', 'or', TRUE, Q), ('bin', 'and', Bf, ('bin', 'implies', P, P)), ('bin', 'or', Cf, ('bin', 'and', P, ('un', 'not', P))),
+            ('bin', 'and', P, Q), P, ('bin', '=', ('bin', '-', VI, VI), int_lit(0)), ('bin', '>', ('bin', '*', VI, int_lit(0)), int_lit(1))]
+    doms = [XS, ('range', int_lit(1), X, False, False), ('set', [X, Y])]
+    out = []
+    for q in ('all', 'some'):
+        for d in doms:
+            for b in elim:
+                qq = ('quant', q, 'i', d, b)
+                out += [qq, ('un', 'not', qq), ('bin', 'and', Bf, qq), ('bin', 'or', qq, Cf)]
+    return out
+
+
+def conversion_family():
+    """conversions applied to conversions of literals (`int(str(3))`, `float(str(2.5))`, `bool(str(0))` ...): the folding works on
+    Python values, and `str()` produces strings without the quotes a string literal of the text carries"""
+    from gen import str_lit
+    lits = [int_lit(3), ('un', '-', int_lit(3)), float_lit(2.5), float_lit(2.0), TRUE, FALSE, str_lit('a'), str_lit('7'), int_lit(0)]
+    convs = ['int', 'float', 'str', 'bool', 'abs']
+    out = []
+    for f in convs:
+        for g in convs:
+            for l in lits:
+                inner = ('call', g, [l])
+                t = ('call', f, [inner])
+                if f == 'bool':
+                    out.append(('bin', 'or', t, Cf))
+                elif f == 'str':
+                    out.append(('bin', '=', t, str_lit('3')))
+                else:
+                    out.append(('bin', '>=', X, t))
+    return out
+
+
 def grid_envs():
     envs = []
     for x, y, a in itertools.product([0, 1, -1, 2, Fraction(1, 2)], [0, 1, 2], [0, 1, -1]):
@@ -115,7 +155,7 @@ def run(ctx):
     ep, prp = expression_parser(), predicate_parser()
     genv = grid_envs()
     g1, g2, g3 = small_grammar(rng, 400 if ctx.quick else 8000)
-    forms = g1 + (rng.sample(g2, 2500) if ctx.quick else g2) + g3
+    forms = g1 + (rng.sample(g2, 2500) if ctx.quick else g2) + g3 + quantifier_family() + conversion_family()
     cases = []
     rejects = 0
     for r in forms:
